@@ -1,8 +1,61 @@
 (** C09 - Foreign-key policy: no parent is touched ahead of its child's pending errors. *)
-From Hermes Require Import Model.Objects Model.Client Proofs.Client.
+From Hermes Require Import Model.Objects Model.Client Proofs.Client Proofs.ClientFK.
+
+(** An event of a kind covered by the policy, on an object registered as a parent by some
+    queue entry, invokes no handler at all: the handler log and the invocation counter are
+    unchanged, processing reports success, and (remediation disabled) the event becomes the
+    newest queue entry.  Holds for every configuration, handler behaviour and state. *)
+Theorem C09_parent_event_is_deferred : forall c outcome f st rev,
+  mapped c (ce_t rev) = true ->
+  q_is_parent (queue st) (ce_id rev) = true ->
+  fk_events c (ce_kind rev) = true ->
+  let r := process_remote c outcome (S f) st rev None true false in
+  calls (fst r) = calls st /\ ncall (fst r) = ncall st /\ snd r = true /\
+  (cc_remed c = RDisabled ->
+   forall l, convert c true rev = Some l ->
+   exists e, queue (fst r) = queue st ++ [e] /\ q_remote e = Some rev /\ q_num e = q_next_num (queue st)).
+Proof. exact parent_event_deferred. Qed.
+Print Assumptions C09_parent_event_is_deferred.
+
+(** the simulated pass used when queueing never invokes a handler nor touches the queue *)
+Theorem C09_simulation_is_silent : forall c outcome f st rev lev enq,
+  same_log (fst (process_remote c outcome f st rev lev enq true)) st.
+Proof. exact process_remote_sim. Qed.
+Print Assumptions C09_simulation_is_silent.
+
+(** the retry pass skips (and remembers) an entry whose object is a registered parent *)
+Theorem C09_retry_skips_parent : forall c outcome st n r skipped e,
+  exc st = false ->
+  List.find (fun e => Z.eqb (q_num e) n) (queue st) = Some e ->
+  q_is_oldest (queue st) e = true ->
+  q_is_parent (queue st) (ce_id (q_local e)) = true ->
+  retry_pass c outcome st (n :: r) None skipped = retry_pass c outcome st r None (skipped ++ [n]).
+Proof. exact retry_skips_parent. Qed.
+Print Assumptions C09_retry_skips_parent.
 
 (** the retry only offers the oldest entry of an object (shared with C07) *)
 Theorem C09_retry_in_arrival_order : forall q e e',
   q_is_oldest q e = true -> In e' q -> ce_id (q_local e') = ce_id (q_local e) -> (q_num e <= q_num e')%Z.
 Proof. exact oldest_is_minimal. Qed.
 Print Assumptions C09_retry_in_arrival_order.
+
+(** non-vacuity: a child (type 2, key 5) whose failed 'modified' registered its parent
+    (type 1, key 5); the parent's 'removed' meets the hypotheses of the first theorem *)
+Definition ex_cfg : ccfg :=
+  CCfg [CType 1 [(10%N, 1%N)] [] 99; CType 2 [(10%N, 1%N)] [(10%N, 1%N)] 99] None FKOnRemove RDisabled 99 [1%N; 2%N].
+Definition ex_obj : obj := {[ 10%N := VInt 5 ]}.
+Definition ex_child_ev : cev := CEv 2 5 (KModified (MDiff ∅ {[ 11%N := VInt 1 ]} ∅)) 0 0 false.
+Definition ex_state : cstate :=
+  CState {[ (1%N, 5%Z) := ex_obj; (2%N, 5%Z) := ex_obj ]} ∅ {[ (1%N, 5%Z) := ex_obj; (2%N, 5%Z) := ex_obj ]} ∅
+         {[ (1%N, 5%Z) := ex_obj; (2%N, 5%Z) := ex_obj ]} ∅ {[ (1%N, 5%Z) := ex_obj; (2%N, 5%Z) := ex_obj ]} ∅
+         [QEntry 1 (Some ex_child_ev) ex_child_ev true
+                 (entry_parents ex_cfg {[ (1%N, 5%Z) := ex_obj; (2%N, 5%Z) := ex_obj ]}
+                                       {[ (1%N, 5%Z) := ex_obj; (2%N, 5%Z) := ex_obj ]} ex_child_ev)]
+         0 [] 0 false false false false [].
+Definition ex_parent_removed : cev := CEv 1 5 KRemoved 0 0 false.
+Example C09_hypotheses_satisfiable :
+  mapped ex_cfg (ce_t ex_parent_removed) = true /\
+  q_is_parent (queue ex_state) (ce_id ex_parent_removed) = true /\
+  fk_events ex_cfg (ce_kind ex_parent_removed) = true /\
+  convert ex_cfg true ex_parent_removed <> None.
+Proof. vm_compute. repeat split; congruence. Qed.
